@@ -28,7 +28,7 @@ def mc_file():
     if st is None:
         raise ToolError("MCFile failed: %s" % out[-1500:])
     res = {"rc": rc, "generated": st[0], "distinct": st[1], "depth": st[2]}
-    json.dump(res, open(cf, "w"))
+    rv.dump_json_atomic(cf, res)
     shutil.rmtree(wd, ignore_errors=True)
     return res
 
@@ -78,6 +78,17 @@ def drivers(tier, seed):
                 for a in atts:
                     ds.append({"id": "open:%d" % n, "flavor": flavor, "base": base, "history": hist, "mut": mu, "attempts": [a]})
                     n += 1
+            # "any of the eight identification bytes to any value": all 8 x 256, through a writable and a read-only variant
+            # (quick, prefix-less layout) or through every variant (thorough, both layouts)
+            if res == 0 or tier != "quick":
+                for k in range(8):
+                    for v in range(256):
+                        for variant in (["map_mut", "map"] if tier == "quick" else ["map_mut", "map_copy", "map", "map_copy_ro"]):
+                            a = {"variant": variant, "cap": 0, "reserved": res, "kind": "opt", "magic": 5, "minseg": 8,
+                                 "create": False, "create_new": False}
+                            ds.append({"id": "open:%d" % n, "flavor": flavor, "base": base, "history": hist,
+                                       "mut": [{"k": "set", "at": ident + k, "bytes": [v]}], "attempts": [a]})
+                            n += 1
     return ds
 
 
@@ -94,9 +105,8 @@ def run(prop, tier, seed):
     rv.write_ndjson(dfile, ds)
     rv.run_harness(binary, "open", [dfile, tfile, os.path.join(wd, "files")], timeout=900)
     shutil.rmtree(os.path.join(wd, "files"), ignore_errors=True)
-    with open(os.path.join(rv.SPEC, "TraceOpen.cfg"), "w") as f:
-        f.write("SPECIFICATION Spec\nCONSTANT FixedOrder = %s\nPOSTCONDITION Post\nCHECK_DEADLOCK FALSE\n" % ("TRUE" if FIXED_ORDER else "FALSE"))
-    r = rv.validate_trace(tfile, "TraceOpen.tla", "TraceOpen.cfg", "open")
+    cfg_text = "SPECIFICATION Spec\nCONSTANT FixedOrder = %s\nPOSTCONDITION Post\nCHECK_DEADLOCK FALSE\n" % ("TRUE" if FIXED_ORDER else "FALSE")
+    r = rv.validate_trace(tfile, "TraceOpen.tla", "TraceOpen.cfg", "open", cfg_text=cfg_text)
     lines = r["lines"]
     by_id = {d["id"]: d for d in ds}
     viol = []
